@@ -18,6 +18,11 @@ and it must return the argument itself, not its resolution (the caller resolves 
         Union that mashumaro treats as Optional after resolution has 2) - arity beyond max(ARITIES)
         is not covered.  Precondition (stated, unchecked): the arguments are hashable (type objects
         are) - an unhashable argument makes dict.get raise TypeError in code and spec alike.
+  S19 /two-args-one-none{n}   helpers.py:is_optional(typ, resolved_type_params), the test by which pack.py / unpack.py
+        decide that a union is an Optional: True exactly when is_union(typ), typ has two arguments and one of them
+        resolves to NoneType.  Same method: the real AST on an arbitrary typ whose get_args is a tuple of n arbitrary
+        objects (n in ARITIES; trusted: typing.get_args returns a tuple; is_union uninterpreted and non-raising),
+        against a closed form, discharged by z3.
   /native{bounded}     bounded (labelled so): the real function against the Python reading of the spec on
         every tuple over a small alphabet of real types x resolution maps; supplies the replayed
         input when the symbolic obligation is refuted.
@@ -30,7 +35,7 @@ import itertools
 import z3
 
 from . import pysym
-from .pysym import LL, Tm
+from .pysym import LL, Ob, Tm
 
 HELPERS = "/repo/mashumaro/core/meta/helpers.py"
 ARITIES = (0, 1, 2, 3, 4)
@@ -49,6 +54,20 @@ def _spec_src(n):
     return "\n".join(lines) + "\n"
 
 
+def _spec_src_opt(n):
+    a = [f"a{i}" for i in range(n)]
+    lines = ["def spec(%s):" % ", ".join(["typ"] + a + ["resolved_type_params"])]
+    if n != 2:
+        lines.append("    return False")
+        return "\n".join(lines) + "\n"
+    for i in range(n):
+        lines.append(f"    r{i} = a{i} if resolved_type_params is None else resolved_type_params.get(a{i}, a{i})")
+    lines.append("    if is_union(typ) and (r0 is NoneType or r1 is NoneType):")
+    lines.append("        return True")
+    lines.append("    return False")
+    return "\n".join(lines) + "\n"
+
+
 def _py_spec(args, m):
     for a in args:
         r = a if m is None else m.get(a, a)
@@ -57,9 +76,9 @@ def _py_spec(args, m):
     return None
 
 
-def _fn(path):
+def _fn(path, name="not_none_type_arg"):
     mod = ast.parse(open(path).read())
-    fns = [n for n in mod.body if isinstance(n, ast.FunctionDef) and n.name == "not_none_type_arg"]
+    fns = [n for n in mod.body if isinstance(n, ast.FunctionDef) and n.name == name]
     return fns[0] if fns else None
 
 
@@ -88,6 +107,40 @@ def native_witness():
     return n, None
 
 
+def _compare(oid, unit, eng, code, spec, msg, witness_fn):
+    prover = pysym.Prover(eng, 10000)
+    code = [p for p in code if prover.sat(p.pc)[0] != z3.unsat]
+    spec = [p for p in spec if prover.sat(p.pc)[0] != z3.unsat]
+    if not code or not spec or any(q.kind != "return" for q in spec):
+        return dict(id=oid, status="undecided", unit=unit, detail="no feasible path / the specification raises")
+    bad, pairs = [], 0
+    for p in code:
+        for q in spec:
+            pc = list(p.pc) + list(q.pc)
+            s = prover.sat(pc)[0]
+            if s == z3.unsat:
+                continue
+            if s != z3.sat:
+                return dict(id=oid, status="undecided", unit=unit, detail="solver: unknown on a path pair")
+            pairs += 1
+            if p.kind != "return":
+                bad.append(f"a path raises {p.value!r} where the specification returns")
+                continue
+            try:
+                v = prover.prove("same", pc, eng.term(p.value) == eng.term(q.value))
+            except pysym.NotInSubset as e:
+                return dict(id=oid, status="undecided", unit=unit, detail=f"outside the verified subset: {e}")
+            if v.status == "unknown":
+                return dict(id=oid, status="undecided", unit=unit, detail=f"solver: {v.detail}")
+            if v.status != "proved":
+                bad.append(msg)
+    # totality: the spec's path conditions cover every input, so every code path met at least one spec path
+    w = None
+    if bad:
+        _, w = witness_fn()
+    return dict(id=oid, status="refuted" if bad else "proved", unit=unit, detail="; ".join(sorted(set(bad))), paths=pairs, witness=w)
+
+
 def verify_arity(pid, n, fn):
     import mashumaro.core.meta.helpers as H
 
@@ -109,37 +162,75 @@ def verify_arity(pid, n, fn):
         spec = ex2.run(spec_fn, dict({f"a{i}": items[i] for i in range(n)}, resolved_type_params=rtp))
     except pysym.NotInSubset as e:
         return dict(id=oid, status="undecided", unit=UNIT, detail=f"outside the verified subset: {e}")
-    prover = pysym.Prover(eng, 10000)
-    code = [p for p in code if prover.sat(p.pc)[0] != z3.unsat]
-    spec = [p for p in spec if prover.sat(p.pc)[0] != z3.unsat]
-    if not code or not spec or any(q.kind != "return" for q in spec):
-        return dict(id=oid, status="undecided", unit=UNIT, detail="no feasible path / the specification raises")
-    bad, pairs = [], 0
-    for p in code:
-        for q in spec:
-            pc = list(p.pc) + list(q.pc)
-            s = prover.sat(pc)[0]
-            if s == z3.unsat:
-                continue
-            if s != z3.sat:
-                return dict(id=oid, status="undecided", unit=UNIT, detail="solver: unknown on a path pair")
-            pairs += 1
-            if p.kind != "return":
-                bad.append(f"a path raises {p.value!r} where the specification returns")
-                continue
+    return _compare(oid, UNIT, eng, code, spec,
+                    "the result is not the first argument whose resolution (resolved_type_params.get(a, a); a itself without a map) is not NoneType", native_witness)
+
+
+UNIT_OPT = "helpers.py:is_optional"
+
+
+def native_witness_opt():
+    """the real is_optional against the spec on real typing objects"""
+    from typing import Optional, TypeVar, Union
+
+    from mashumaro.core.meta.helpers import is_optional
+
+    T, U = TypeVar("T"), TypeVar("U")
+    NoneType = type(None)
+    typs = [int, Optional[int], Union[None, int], Union[int, str], Union[int, str, None], Optional[T], Union[T, int], Union[T, U], Union[T, U, int], list[int], tuple[int, None], dict[None, int]]
+    maps = [None, {}, {T: NoneType}, {T: int}, {T: NoneType, U: NoneType}, {U: NoneType}, {int: NoneType}]
+    import typing
+
+    n = 0
+    for t in typs:
+        for m in maps:
+            n += 1
+            args = typing.get_args(t)
+            is_u = typing.get_origin(t) in (Union, __import__("types").UnionType)
+            want = bool(is_u and len(args) == 2 and any((a if m is None else m.get(a, a)) is NoneType for a in args))
             try:
-                v = prover.prove("same", pc, eng.term(p.value) == eng.term(q.value))
-            except pysym.NotInSubset as e:
-                return dict(id=oid, status="undecided", unit=UNIT, detail=f"outside the verified subset: {e}")
-            if v.status == "unknown":
-                return dict(id=oid, status="undecided", unit=UNIT, detail=f"solver: {v.detail}")
-            if v.status != "proved":
-                bad.append("the result is not the first argument whose resolution (resolved_type_params.get(a, a); a itself without a map) is not NoneType")
-    # totality: the spec's path conditions cover every input, so every code path met at least one spec path
-    w = None
-    if bad:
-        _, w = native_witness()
-    return dict(id=oid, status="refuted" if bad else "proved", unit=UNIT, detail="; ".join(sorted(set(bad))), paths=pairs, witness=w)
+                got = is_optional(t, m) if m is not None else is_optional(t)
+            except Exception as e:  # noqa
+                return n, {"confirmed": True, "input": f"is_optional({t!r}, {m!r})", "why": f"raised {type(e).__name__}: {e}; expected {want!r}"}
+            if got is not want:
+                return n, {"confirmed": True, "input": f"is_optional({t!r}, {m!r})", "why": f"returned {got!r}; a union of two arguments one of which resolves to NoneType: {want!r}"}
+    return n, None
+
+
+def verify_is_optional(pid, n, fn):
+    import mashumaro.core.meta.helpers as H
+
+    oid = f"{pid}.S19[is_optional]/two-args-one-none{{{n}}}"
+    eng = pysym.Engine()
+    items = [Tm(eng.fresh(f"a{i}")) for i in range(n)]
+    rtp = Tm(eng.fresh("resolved_type_params"))
+    typ = Tm(eng.fresh("typ"))
+    ns = dict(H.__dict__)
+    params = [a.arg for a in fn.args.posonlyargs + fn.args.args]
+    if len(params) != 2:
+        return dict(id=oid, status="undecided", unit=UNIT_OPT, detail=f"signature changed: {params}")
+
+    def call(ex, fnv, args, kw, node, st, ctx):
+        o = fnv.o if isinstance(fnv, Ob) else None
+        if o is H.get_args and len(args) == 1 and not kw and isinstance(args[0], Tm) and z3.eq(args[0].t, typ.t):
+            return LL("tuple", items)  # trusted: typing.get_args(typ) is a tuple; here of n arbitrary members
+        if o is len and len(args) == 1 and not kw and isinstance(args[0], LL):
+            return Ob(len(args[0].items))
+        return None
+
+    spec_fn = ast.parse(_spec_src_opt(n)).body[0]
+    try:
+        code, spec = [], []
+        for src, tgt, binds in ((fn, code, {params[0]: typ, params[1]: rtp}),
+                                (spec_fn, spec, dict({f"a{i}": items[i] for i in range(n)}, typ=typ, resolved_type_params=rtp))):
+            ex = pysym.Executor(eng, ns, hooks={"call": call})
+            ex.assume_hasattr = True
+            ex.nonraising.add(pysym._const_key(H.is_union))
+            tgt.extend(ex.run(src, binds))
+    except pysym.NotInSubset as e:
+        return dict(id=oid, status="undecided", unit=UNIT_OPT, detail=f"outside the verified subset: {e}")
+    return _compare(oid, UNIT_OPT, eng, code, spec,
+                    "the result is not `is_union(typ) and typ has two arguments and one of them resolves to NoneType`", native_witness_opt)
 
 
 def all_obligations(pid, path=HELPERS):
@@ -147,6 +238,14 @@ def all_obligations(pid, path=HELPERS):
     if fn is None:
         return [dict(id=f"{pid}.S18[not_none_type_arg]/first-non-none", status="undecided", unit=UNIT, detail="not_none_type_arg not found")]
     obs = [verify_arity(pid, n, fn) for n in ARITIES]
+    fo = _fn(path, "is_optional")
+    if fo is None:
+        obs.append(dict(id=f"{pid}.S19[is_optional]/two-args-one-none", status="undecided", unit=UNIT_OPT, detail="is_optional not found"))
+    else:
+        obs += [verify_is_optional(pid, n, fo) for n in ARITIES]
+        n2, w2 = native_witness_opt()
+        obs.append(dict(id=f"{pid}.S19[is_optional]/native{{bounded}}", status="refuted" if w2 else "proved", unit=UNIT_OPT + f" (bounded: {n2} concrete calls)",
+                        detail=(w2 or {}).get("why", ""), witness=w2, bounded=True))
     n, w = native_witness()
     obs.append(dict(id=f"{pid}.S18[not_none_type_arg]/native{{bounded}}", status="refuted" if w else "proved", unit=UNIT + f" (bounded: {n} concrete calls)",
                     detail=(w or {}).get("why", ""), witness=w, bounded=True))
